@@ -133,7 +133,7 @@ impl Area for ConcAtomic {
         let prog: Vec<String> = (0..nt).map(|_| { let n = rng.range(1, 3); (0..n).map(|_| {
             if tiny { match rng.below(10) { 0..=4 => format!("{}:{}", if kind == "gauge" { "addu" } else { "incbyu" }, rng.range(1, 4)), 5..=7 => if kind == "gauge" { format!("subu:{}", rng.range(1, 4)) } else { format!("incbyu:{}", rng.range(1, 4)) }, _ => "get".into() } }
             else if kind.contains("counter") { match rng.below(10) { 0..=2 => "inc".to_string(), 3..=5 => format!("incby:{}", rng.range(1, 4)), 6..=7 => "get".into(), 8 => format!("lflush:{}", rng.range(0, 3)), _ => "reset".into() } }
-            else { match rng.below(12) { 0..=1 => "inc".to_string(), 2..=3 => "dec".into(), 4..=5 => format!("add:{}", rng.range(1, 4)), 6..=7 => format!("sub:{}", rng.range(1, 4)), 8..=9 => "get".into(),
+            else { match rng.below(12) { 0..=1 => "inc".to_string(), 2..=3 => "dec".into(), 4..=5 => if kind == "intgauge" && rng.chance(15) { format!("add:{}", rng.pick(&[i64::MIN, i64::MAX])) } else { format!("add:{}", rng.range(1, 4)) }, 6..=7 => if kind == "intgauge" && rng.chance(15) { format!("sub:{}", rng.pick(&[i64::MIN, i64::MAX])) } else { format!("sub:{}", rng.range(1, 4)) }, 8..=9 => "get".into(),
                 _ => if kind == "intgauge" && rng.chance(40) { format!("set:{}", rng.pick(&[i64::MAX - 1, i64::MAX - 2, i64::MIN + 1])) } else { format!("set:{}", rng.range(0, 9)) } } }
         }).collect::<Vec<_>>().join(",") }).collect();
         vec![format!("catom kind={} prog={} sseed={}", kind, prog.join("|"), rng.next() % 1_000_000)]
